@@ -159,15 +159,15 @@ def run(job, mon):
         # joint coordinates reported by spring / positional are not the
         # inverse image of the pose (known finding K2 of C08), so "inside
         # the range" cannot be read off them and the guard rejects the case
-        if idx % 4 == 1:
+        if idx % 4 in (1, 2):
           # single joints (slide or hinge) at the body origin, every one
-          # limited, half of them with a range that does not contain 0
+          # limited, most of them with a range that does not contain 0
           spec = gen.gen_model(rng, strength='gentle', limit_prob=1.0,
                                n_links=int(rng.integers(1, 4)),
                                single_origin=True)
           for b_ in spec['bodies']:
             for j_ in b_['joints']:
-              if 'range' in j_ and rng.random() < 0.5:
+              if 'range' in j_ and rng.random() < 0.7:
                 a_, w_ = float(rng.uniform(0.1, 0.8)), float(
                     rng.uniform(0.3, 1.0))
                 j_['range'] = ([a_, a_ + w_] if rng.random() < 0.5
@@ -213,26 +213,32 @@ def run(job, mon):
         unit('with', a1[3], wit)
         unit('without', b1[3], wit)
         if kind == 'separated':
-          d0 = float(getc(jp.array(a0[2]), jp.array(a0[3])))
-          d1 = float(getc(jp.array(a1[2]), jp.array(a1[3])))
-          dpos = np.linalg.norm(a1[2] - a0[2], axis=1)
-          dang = 2 * np.arccos(np.clip(np.abs((a1[3] * a0[3]).sum(1)), 0, 1))
+          # the guard is evaluated on the *reference twin* (no collisions):
+          # if its motion keeps every candidate pair separated by more than 3x
+          # the largest displacement, nothing can have touched, and the run
+          # with collisions must equal it. (Using the run under test in the
+          # guard would let a defect that kicks separated bodies disqualify
+          # its own witness.)
+          d0 = float(getc(jp.array(b0[2]), jp.array(b0[3])))
+          d1 = float(getc(jp.array(b1[2]), jp.array(b1[3])))
+          dpos = np.linalg.norm(b1[2] - b0[2], axis=1)
+          dang = 2 * np.arccos(np.clip(np.abs((b1[3] * b0[3]).sum(1)), 0, 1))
           disp = float((dpos + dang * 1.0).max())
           if not (d0 > 0 and d1 > 0 and min(d0, d1) > 3 * disp):
             mon.count('separated_guard_possibly_touching:' + pname)
             continue
           name = 'separated_equals_no_collision:' + pname
         else:
+          # guard on the twin without limits only (same reason as above)
           ok = True
           for j in range(mj.njnt):
             if mj.jnt_limited[j]:
               ad = mj.jnt_qposadr[j]
               lo, hi = mj.jnt_range[j]
-              for r in (a1, b1):
-                q2 = float(r[0][ad])
-                dq = abs(q2 - q[ad])
-                margin = min(q[ad] - lo, hi - q[ad], q2 - lo, hi - q2)
-                ok = ok and margin >= 10 * dq
+              q2 = float(b1[0][ad])
+              dq = abs(q2 - q[ad])
+              margin = min(q[ad] - lo, hi - q[ad], q2 - lo, hi - q2)
+              ok = ok and margin >= 10 * dq
           if not ok:
             mon.count('limits_guard_possibly_reached:' + pname)
             continue
